@@ -301,7 +301,27 @@ func iFprintf(in *Interp, th *Thread, args []Value, fn *ssa.Function) (Value, ca
 }
 
 func iOpaqueStr(in *Interp, th *Thread, args []Value, fn *ssa.Function) (Value, callStatus) {
-	return in.opaqueString(fn.Name()), csDone
+	// deterministic per (function, integer arguments): the same error value
+	// formats to the same text
+	key := fn.String()
+	for _, a := range args {
+		if bv, ok := a.(BVv); ok {
+			key += fmt.Sprintf(":%d", bv.T.id)
+		} else {
+			key = ""
+			break
+		}
+	}
+	if key != "" {
+		if v, ok := in.opaques[key]; ok {
+			return v, csDone
+		}
+	}
+	v := in.opaqueString(fn.Name())
+	if key != "" {
+		in.opaques[key] = v
+	}
+	return v, csDone
 }
 
 func (in *Interp) namedType(pkg, name string) types.Type {
